@@ -337,3 +337,7 @@ def check(ctx):
     # ---- R01-h the cancellation classifier used while leaving scopes and task groups cannot fail or over-match ----------------------
     from .common import classifier_total
     classifier_total(ctx, "R01-h")
+
+    # ---- R01-j (shared with C07/R07-f, C12/R12-g)
+    from .common import waiter_guard
+    waiter_guard(ctx, "R01-j", "the delivery loop that the join relies on asks `.done()` only of a waiter that is an asyncio.Future (any other awaitable a child is suspended on would make cancel() raise out of __aexit__ before the join)")
